@@ -401,6 +401,15 @@ def instrument_job(job, a, wd):
         if rc != 0:
             raise Undecided("nondet-static failed: " + (e or o)[-600:])
         cur = r
+    if job.no_dfcc and job.loops:
+        # plain harness (posts are assertions of the harness) + loop contracts applied by the non-dfcc instrumentation
+        lj = make_loop_json(job, cur, wd, harness_globals(os.path.join(VERIF, "contracts", job.harness)))
+        ljp = os.path.join(wd, "loops.json")
+        json.dump(lj, open(ljp, "w"), indent=1)
+        rc, o, e = run(["goto-instrument", "--loop-contracts-file", ljp, "--apply-loop-contracts"] + job.extra_gi + [cur, b], timeout=600, mem_kb=MEM_KB)
+        if rc != 0:
+            raise Undecided("goto-instrument --apply-loop-contracts failed: " + ((e or "") + (o or ""))[-900:])
+        return b
     if job.no_dfcc:
         if job.extra_gi:
             rc, o, e = run(["goto-instrument"] + job.extra_gi + [cur, b], timeout=300)
